@@ -482,6 +482,55 @@ pub fn shard_run(tier: &str, seed: u64, replay_case: Option<usize>, shard: Shard
             }
         }
     }
+    // ---- a directory written by the pinned release, taken over by the code under test: a newer
+    // snapshot and a new version are uploaded, the database is re-opened (twice): what is served is
+    // what was uploaded last
+    if replay_case.is_none() && shard.k == (10 % shard.n) {
+        for i in 0..(if thorough { 40 } else { 8 }) {
+            let d = ScratchDir::new("c06up");
+            let wseed = Rng::new(seed).fork(0xC06_0000 + i as u64).next_u64();
+            let Ok(exp) = crate::checks_c19::write_pinned(d.path(), wseed, i % 2 == 0) else { continue };
+            let Ok(mut subj) = Subject::open_dir(Kind::SQL_LIB, Config::default(), d) else {
+                out.errors.push("cannot open a directory written by the pinned release".into());
+                continue;
+            };
+            for (ci, c) in exp.clients.iter().enumerate() {
+                let Some(last) = c.versions.last() else { continue };
+                let vdata = PaySpec::new(3000 + i * 13, (i + ci) as u8 % PAY_CLASSES, wseed ^ 0x11).bytes();
+                let sdata = PaySpec::new(7000 + i * 17, (i + ci + 5) as u8 % PAY_CLASSES, wseed ^ 0x22).bytes();
+                let Resp::AddOk { vid, .. } = subj.exec(c.id, &Req::AddVersion { parent: last.vid, data: vdata.clone() }) else { continue };
+                if !matches!(subj.exec(c.id, &Req::AddSnapshot { vid, data: sdata.clone() }), Resp::SnapOk) {
+                    continue;
+                }
+                cov.evaluations += 2;
+                cov.hit(format!("taken-over-from-pinned-release|{}", if c.snapshot.is_some() { "had-a-snapshot" } else { "no-snapshot-before" }));
+                for round in 0..2 {
+                    if subj.reopen().is_err() {
+                        out.errors.push("reopen failed".into());
+                        break;
+                    }
+                    let snap = subj.exec(c.id, &Req::GetSnapshot);
+                    let child = subj.exec(c.id, &Req::GetChild { parent: last.vid });
+                    let ok_s = matches!(&snap, Resp::Snap { vid: v, data } if *v == vid && *data == sdata);
+                    let ok_c = matches!(&child, Resp::Found { vid: v, data, .. } if *v == vid && *data == vdata);
+                    if !ok_s || !ok_c {
+                        let d = |want: &Vec<u8>, got: &Resp| match got {
+                            Resp::Found { data, .. } | Resp::Snap { data, .. } => format!("{} bytes for {} uploaded, first difference at {:?}", data.len(), want.len(), first_diff(data, want)),
+                            o => o.short(),
+                        };
+                        out.found.push(Found {
+                            property: "C06".into(),
+                            signature: "C06:taken over from pinned release".into(),
+                            msg: format!("a directory written by the pinned release (client {} {}), then a new version ({} bytes) and a newer snapshot ({} bytes) uploaded to the current code; after re-opening the database ({}x) the snapshot is served as {} and the version as {}", c.id, if c.snapshot.is_some() { "with a snapshot" } else { "without a snapshot" }, vdata.len(), sdata.len(), round + 1, d(&sdata, &snap), d(&vdata, &child)),
+                            replay: json!({"origin": "c06-pinned", "case": i, "writer_seed": wseed.to_string()}),
+                        });
+                        out.cov = cov;
+                        return out;
+                    }
+                }
+            }
+        }
+    }
     // ---- two clients whose chains meet in one version id V (B's chain starts at A's version V):
     // both hold a version whose parent is V and both store a snapshot for V; each must get its own bytes
     if replay_case.is_none() && shard.k == (8 % shard.n) {
@@ -658,7 +707,7 @@ pub fn finalize(out: ShardOut, is_replay: bool) -> CheckResult {
         "situations_top": top.iter().take(40).map(|(k, v)| json!({"situation": k, "n": v})).collect::<Vec<_>>(),
         "connection_level_situations": cov.situations.iter().filter(|(k, _)| k.starts_with("one-connection|") || k.starts_with("interleaved-uploads|") || k.starts_with("stalled-upload|")).map(|(k, v)| json!({"situation": k, "n": v})).collect::<Vec<_>>(),
     });
-    let required = ["stalled-upload|", "interleaved-uploads|workers=1", "one-connection|pipelined", "one-connection|keep-alive", "shared-version-id|", "class=zlib-stream", "class=gzip-member", "Lib(Sqlite)|", "Http(Mem)|", "Http(Sqlite)|", "SocketMem|", "SocketBinary|", "chunking=five", "chunking=empty", "len~overflow-window", "len~big", "class=invalid-utf8", "class=numeric-text", "|snapshot|"];
+    let required = ["stalled-upload|", "interleaved-uploads|workers=1", "one-connection|pipelined", "one-connection|keep-alive", "shared-version-id|", "taken-over-from-pinned-release|had-a-snapshot", "class=zlib-stream", "class=gzip-member", "Lib(Sqlite)|", "Http(Mem)|", "Http(Sqlite)|", "SocketMem|", "SocketBinary|", "chunking=five", "chunking=empty", "len~overflow-window", "len~big", "class=invalid-utf8", "class=numeric-text", "|snapshot|"];
     let verdict = if !out.found.is_empty() {
         Verdict::Violated(out.found)
     } else if !out.errors.is_empty() {
